@@ -32,6 +32,31 @@ def _pwc(classes, seed=0, **kw):
     return ParzenWindowClassifier(classes=classes, random_state=seed, **kw)
 
 
+_RECENCY = {}
+
+
+def _recency(classes, seed=0):
+    """A deterministic classifier that is sensitive to the ORDER of its training rows (later rows weigh more): a Parzen window
+    classifier whose sample weights are multiplied by the row position.  Cheap stand-in for SGD / forests (seed R9C08)."""
+    from skactiveml.classifier import ParzenWindowClassifier
+
+    if "cls" not in _RECENCY:
+        class RecencyWeightedPWC(ParzenWindowClassifier):
+            def fit(self, X, y, sample_weight=None):
+                from skactiveml.utils import is_labeled
+
+                # position among the *labeled* training rows (rows without a label carry no information and no position)
+                lab = is_labeled(np.asarray(y), missing_label=self.missing_label)
+                w = np.zeros(len(lab))
+                w[lab] = (np.arange(int(lab.sum())) + 1.0) / max(int(lab.sum()), 1)
+                if sample_weight is not None:
+                    w = w * np.asarray(sample_weight, dtype=float)
+                return super().fit(X, y, sample_weight=w)
+
+        _RECENCY["cls"] = RecencyWeightedPWC
+    return _RECENCY["cls"](classes=classes, random_state=seed)
+
+
 def _nb(classes, seed=0):
     from sklearn.naive_bayes import GaussianNB
     from skactiveml.classifier import SklearnClassifier
@@ -114,6 +139,8 @@ def pool_specs(classes=(0, 1, 2), missing_label=np.nan):
         lambda d, s: {"clf": _pwc(C[:2], s)}, samplewise=True, arbitrary_idx=True, classes=C[:2])
     add("MonteCarloEER", lambda s: P.MonteCarloEER(missing_label=ml, random_state=s), clf_kw(_pwc),
         samplewise=True)
+    # a classifier that depends on the order of its training rows: the addressings must hand it the same training sequence
+    add("MonteCarloEER[order-sensitive-clf]", lambda s: P.MonteCarloEER(missing_label=ml, random_state=s), clf_kw(_recency))
     add("MonteCarloEER[log_loss]", lambda s: P.MonteCarloEER(method="log_loss", missing_label=ml, random_state=s), clf_kw(_pwc),
         samplewise=True)
     add("ValueOfInformationEER", lambda s: P.ValueOfInformationEER(missing_label=ml, random_state=s), clf_kw(_pwc),
